@@ -12,7 +12,7 @@ def configs(tier, seed):
                     continue
                 batches = [[0]] if n >= 4 else [[0, 1]]
                 cfgs.append(dict(kind="predict", n=n, k=k, model=model, branch=branch, nq=2 if n < 4 else 1,
-                                 batches=batches, wstride=5, weight=(n ** k) * 20, timeout_ms=60000))
+                                 batches=batches, wstride=1, weight=(n ** k) * 20, timeout_ms=60000))
     return cfgs
 
 
